@@ -1348,7 +1348,7 @@ def _run(run):
     _tick(run, "fault-floor(%d of %d)" % (nfloor, len(floor)))
     # phase 2: the sampled rest within the time box
     if run.thorough:
-        limit = float(os.environ.get("VERIF_C10_FAULT_SECS", "840"))
+        limit = float(os.environ.get("VERIF_C10_FAULT_SECS", "600"))
     else:
         limit = float(os.environ.get(
             "VERIF_C10_FAULT_SECS",
@@ -1444,6 +1444,17 @@ def _run(run):
             got_ok = (rs["code"] == 0 and all(v == 2 for v in rs["obs"]["out"])
                       and not any(rs["obs"]["tmp"]))
             run.corr_checked += 1
+            if expect_ok and not got_ok:
+                # confirm before reporting (a re-run can fail for reasons of
+                # its own on an overloaded machine): same fault, same re-run
+                again = pmap("fault_job", [tuple(res["job"])])[0]
+                rs2 = again.get("restart") if "crash" not in again else None
+                if rs2 is not None:
+                    run.count("restart-retried")
+                    rs = rs2
+                    got_ok = (rs["code"] == 0
+                              and all(v == 2 for v in rs["obs"]["out"])
+                              and not any(rs["obs"]["tmp"]))
             if expect_ok and not got_ok:
                 run.mismatch(dict(cd, rerun=True),
                              ["rerun completes", [2] * nout],
@@ -1650,8 +1661,14 @@ def names_check(run):
     # ---- lists of outputs (paths_out + paths_temp are all guarded) and
     # file-level symlinks (oracle only)
     lcases, limpl, lrend = [], [], []
+    lfixed = []
+    for fn in sorted(os.listdir(cdir)) if os.path.isdir(cdir) else []:
+        if fn.endswith(".json"):
+            c = json.load(open(os.path.join(cdir, fn)))["case"]
+            if c.get("kind") == "names-list":
+                lfixed.append(c)
     try:
-        for q in range(max(40, n // 5)):
+        for q in range(-len(lfixed), max(40, n // 5)):
             in_names = ["in.rtdc"] + (["in2.rtdc"] if q % 2 else [])
             if q % 6 == 0:
                 in_names = ["in.rtdc~", "in2.rtdc"]
@@ -1663,6 +1680,9 @@ def names_check(run):
                 outs.append([run.rng.choice(forms)[0], nm])
             case = dict(kind="names-list", inputs=in_names, form_in="A",
                         outs=outs)
+            if q < 0:
+                case = dict(lfixed[q + len(lfixed)])
+                in_names, outs = case["inputs"], case["outs"]
             res = names_run_list(cli_common, d, case, content)
             lcases.append(case)
             run.record_case(case, True, sample=False)
@@ -2313,7 +2333,7 @@ def search(run, broken):
             done = 0
             import multiprocessing
             it = _POOL.imap_unordered(
-                _job, [("fault_job", j) for j in part], chunksize=2)
+                _job, [("fault_job", j) for j in part], chunksize=1)
             while done < len(part):
                 try:
                     res = it.next(timeout=max(0.1, t_end - time.time()))
